@@ -373,15 +373,23 @@ func c19LocTable(t string) string {
 	seen := map[string]bool{}
 	var out []string
 	add := func(name string) {
-		if seen[name] || len(out) > 40 {
+		if seen[name] || len(out) > 60 {
 			return
 		}
 		seen[name] = true
-		loc, err := time.LoadLocation(name)
-		if err != nil {
+		canon, known := locCache[name]
+		if !known {
+			if loc, err := time.LoadLocation(name); err == nil {
+				canon = loc.String()
+			} else {
+				canon = "\x00"
+			}
+			locCache[name] = canon
+		}
+		if canon == "\x00" {
 			return
 		}
-		out = append(out, hx([]byte(name))+":"+hx([]byte(loc.String())))
+		out = append(out, hx([]byte(name))+":"+hx([]byte(canon)))
 	}
 	ct := proto.ColumnType(t)
 	for i := 0; i < 110; i++ {
@@ -411,13 +419,23 @@ func c19LocTable(t string) string {
 	for _, m := range zoneLike.FindAllStringSubmatch(t, -1) {
 		add(m[1])
 	}
+	// whatever the nesting or the damage: an argument of LoadLocation is what is left of a piece between commas and
+	// parentheses after quotes and spaces were trimmed, and a loadable name has only name characters — so it is a maximal
+	// run of name characters of the string (or empty)
+	add("")
+	for _, m := range zoneRun.FindAllString(t, 60) {
+		add(m)
+	}
 	if len(out) == 0 {
 		return "."
 	}
 	return strings.Join(out, ",")
 }
 
+var locCache = map[string]string{}
+
 var zoneLike = regexp.MustCompile(`'([A-Za-z0-9_/+\-]*)'`)
+var zoneRun = regexp.MustCompile(`[A-Za-z0-9_/+\-.]+`)
 
 func isASCII(s string) bool {
 	for i := 0; i < len(s); i++ {
